@@ -21,6 +21,11 @@ let props : (string * prop) list = [
   "C06", sess_prop P_sess.check_C06 P_sess.nontrivial;
   "C01", sess_prop P_sess.check_C01 P_sess.nontrivial;
   "C12", sess_prop P_sess.check_C12 P_sess.nontrivial;
+  "C07", sess_prop P_sess.check_C07 P_sess.nontrivial;
+  "C08", sess_prop P_sess.check_C08 P_sess.nontrivial;
+  "C10", sess_prop P_sess.check_C10 P_sess.nontrivial;
+  "C13", sess_prop P_sess.check_C13 P_sess.nontrivial;
+  "C19", sess_prop P_sess.check_C19 P_sess.nontrivial;
   "C20", { tag = "c20"; check = P_c20.check; cross_header = P_c20.cross_header;
            cross_footer = P_c20.cross_footer; nontrivial = P_c20.nontrivial };
 ]
